@@ -448,6 +448,16 @@ class Interp:
         fn.cls_ctx = frame.cls_ctx
         return fn
 
+    def ex_Yield(self, frame, e):
+        """`yield x` in the body of the function under contract (a @contextmanager generator): the value is recorded and the body goes
+        on as if the consumer resumed it at once with None - what follows the yield is what runs when the context is left"""
+        if self.ctx.depth > 1:
+            raise Unsupported("yield in a called function (generators are only supported as the function under contract)")
+        v = self.eval(frame, e.value) if e.value is not None else None
+        self.ctx.ghost.setdefault("yielded", []).append(v)
+        self.ctx.note("generator body executed straight through: each yield hands its value out and is resumed at once")
+        return None
+
     def ex_Await(self, frame, e):
         v = self.eval(frame, e.value)
         return self.await_(v)
